@@ -6,7 +6,10 @@ character recording of `whoosh.formats` and of `highlight.Formatter.format_fragm
   shipped expressions — the default pattern `\w+(\.?\w+)*`, `SpaceSeparatedTokenizer`
   (`[^ \t\r\n]+`), `CommaSeparatedTokenizer` (`[^,]+`) — as scanners, `IDTokenizer.__call__`;
 * `analysis/filters.py`: `LowercaseFilter`, `StripFilter`, `PassFilter`, `StopFilter.__call__`
-  (with `renumber`, `minsize`, `maxsize`, `removestops`);
+  (with `renumber`, `minsize`, `maxsize`, `removestops`), `CharsetFilter` / `ReverseTextFilter` /
+  `SubstitutionFilter` (a string function as parameter), `MultiFilter.__call__` (the filter is chosen
+  by the stream's `mode`);
+* `analysis/morph.py`: `StemFilter.__call__` (the stemming function as parameter);
 * `analysis/ngrams.py`: `NgramTokenizer.__call__`, `NgramFilter.__call__` (both modes, `at`);
 * `analysis/intraword.py`: `BiWordFilter.__call__`;
 * `formats.py`: `Positions.word_values`, `Characters.word_values` (what is recorded per term);
@@ -52,6 +55,8 @@ inductive Pat
   | space
   /-- `[^,]+` -/
   | comma
+  /-- `\S+` (not `str.isspace`) -/
+  | nonspace
   deriving DecidableEq, Repr, Inhabited
 
 /-- length of the longest prefix whose characters all satisfy `p` -/
@@ -83,6 +88,7 @@ def matchLen (p : Pat) (cs : List CChar) : Nat :=
     if 0 < n then n + dotRuns (cs.drop n) else 0
   | .space => runLen (fun c => !isSpace4 c) cs
   | .comma => runLen (fun c => c.code != 44) cs
+  | .nonspace => runLen (fun c => !c.space) cs
 
 /-- `expression.finditer(value)`: the spans of the successive matches; `off` is the index of the
     first character of `cs` in the whole text -/
@@ -244,12 +250,27 @@ inductive Tokenizer
   | ngram (min max : Nat)
   deriving Repr, Inhabited
 
+/-- the filters that rewrite a token's text and nothing else (`CharsetFilter`: `text.translate(charmap)`,
+    `ReverseTextFilter`: `text[::-1]`, `SubstitutionFilter`: `pattern.sub(replacement, text)`); the
+    string function is a parameter -/
+def mapText (fn : Str → Str) (ts : List Token) : List Token :=
+  ts.map fun t => { t with text := fn t.text }
+
+/-- `StemFilter.__call__`: stopped tokens and the words of `ignore` are passed through unchanged;
+    the stemming function (and its cache, which cannot change a result) is a parameter -/
+def stemFilter (fn : Str → Str) (ignore : List Str) (ts : List Token) : List Token :=
+  ts.map fun t => if t.stopped || ignore.contains t.text then t else { t with text := fn t.text }
+
 inductive Filter
   | lowercase | strip | pass
   | stop (c : StopCfg)
   | ngram (min max : Nat) (at_ : At)
   | biword (sep : Str)
-  deriving Repr, Inhabited
+  | mapText (fn : Str → Str)
+  | stem (fn : Str → Str) (ignore : List Str)
+  /-- `MultiFilter(index=..., query=...)`; a mode without entry gets `default_filter = PassFilter()` -/
+  | multi (index query : Filter)
+  deriving Inhabited
 
 def runTokenizer (tk : Tokenizer) (mode : Mode) (text : List CChar) : List Token :=
   match tk with
@@ -265,6 +286,16 @@ def runFilter (tb : Tables) (mode : Mode) (f : Filter) (ts : List Token) : List 
   | .stop c => stopFilter c ts none
   | .ngram a b at_ => ngramFilter a b at_ mode ts
   | .biword sep => biword sep ts
+  | .mapText fn => mapText fn ts
+  | .stem fn ignore => stemFilter fn ignore ts
+  | .multi fi fq =>
+    -- MultiFilter.__call__: "only selects on the first token"; no token at all: nothing
+    match ts with
+    | [] => []
+    | _ :: _ =>
+      match mode with
+      | .index => runFilter tb mode fi ts
+      | .query => runFilter tb mode fq ts
 
 /-- `CompositeAnalyzer.__call__` -/
 def analyze (tb : Tables) (tk : Tokenizer) (fs : List Filter) (mode : Mode) (text : List CChar) : List Token :=
